@@ -1072,6 +1072,12 @@ func (e *Exec) step(g *Goroutine) {
 				return
 			}
 			fr.env[in] = res
+			if isReleaseIntrinsic(fn) {
+				// a lock release is also a scheduling point *after* it took effect
+				fr.pc++
+				e.syncPoint(g)
+				return
+			}
 			break
 		}
 		fr.pc++
